@@ -244,7 +244,8 @@ CLAIMED = {
         "spec/Codec.tla: radix parsers, an RFC 8259 decoder, base64, UTF-8 encode/lossy decode, the five escapers with "
         "their inverses, and a frozen digest table, each with TLC-checked laws; all strings <= 4/5 symbols over a JSON "
         "alphabet, mutated documents, digit strings with non-digits at every position, byte-class universes; parseYaml must "
-        "equal parseJson where the property claims it and be total elsewhere.",
+        "equal parseJson where the property claims it and be total elsewhere."
+        " spec/Yaml.tla is a reference reader for a block-style subset of YAML 1.2 (mappings, sequences, one-line scalars with the core schema, comments, multi-document streams; everything doubtful is outside): documents are generated with a known value, the law Read(Print(d)) = ValueOf(d) is checked by TLC, every decided text is cross-checked against PyYAML and evaluated by std.parseYaml.",
         "DESIGN.md §5 C20",
         "Digests are decided on a 39-row known-answer table (+ hashlib sample); big numbers by class/bracket.",
         "TLA+ reference codecs with inverse laws checked by TLC + replay"),
